@@ -197,3 +197,20 @@ def gen_run(rng, db, kind=None):
 def _elts(formula):
     import re
     return re.findall(r"[A-Z][a-z]*", formula)
+
+
+def gen_sweep(db):
+    """deterministic coverage sweep: every primary element of the database once per (temperature, pH, pe) corner,
+    together with a simple background electrolyte, so that every aqueous species of the database enters a model"""
+    prim, val = elements_of(db)
+    have = set(prim)
+    texts = []
+    corners = [(5.0, 4.0, 12.0), (25.0, 7.0, 4.0), (70.0, 10.0, -2.0), (95.0, 6.0, 0.0)]
+    for e in prim:
+        for k, (t, ph, pe) in enumerate(corners):
+            lines = [f"SOLUTION 1", f" temp {fmt(t)}", " units mmol/kgw", f" pH {fmt(ph)}", f" pe {fmt(pe)}", f" {e} 0.1"]
+            for bg, c in (("Na", 5), ("Cl", 5), ("C", 1), ("S", 0.5), ("Ca", 0.5)):
+                if bg in have and bg != e and (k % 2 == 0 or bg in ("Na", "Cl")):
+                    lines.append(f" {bg} {c}")
+            texts.append("\n".join(lines) + "\n" + TAIL)
+    return texts
